@@ -167,4 +167,33 @@ example : dedupe ["a", "b", "a"] = ["a", "b"] := by decide
 example : refersTo "" 8081 sp1 = false ∧ refersTo "" 80 sp1 = true := by decide
 example : (readyEps (selectSlices 8080 [sl1])).length = 2 := by decide
 
+/-! ### one resource, several backends -/
+
+/-- **backends_resolved_independently**: the server list a backend is given is a function of that backend alone (and the cluster),
+not of its position or of the backends processed before it. -/
+theorem backends_resolved_independently (isPlus cip : Bool) (all svcs pods) (bs : List Backend) (i : Nat) (h : i < bs.length) :
+    (resolveAll isPlus cip all svcs pods bs)[i]'(by simpa [resolveAll] using h) = resolveOne isPlus cip all svcs pods bs[i] := by
+  simp [resolveAll]
+
+/-- **missing_service_no_servers**: a backend whose Service does not exist gets no servers, whatever the other backends resolve to
+and whatever EndpointSlices were left behind under its name. -/
+theorem missing_service_no_servers (isPlus cip : Bool) (all svcs pods) (b : Backend)
+    (h : ∀ s ∈ svcs, s.1.name ≠ b.svc) : resolveOne isPlus cip all svcs pods b = [] := by
+  unfold resolveOne
+  have : svcs.find? (fun s => decide (s.1.name = b.svc)) = none := by
+    rw [List.find?_eq_none]; intro s hs; simpa using h s hs
+  rw [this]
+
+/-- a backend's servers come from its own Service's slices only (with `endpointsForPort_exact`, they are exactly the ready
+endpoints of the referenced port) -/
+theorem resolved_from_own_service (isPlus : Bool) (all svcs pods) (b : Backend) (svc : Svc) (cipAddr : String)
+    (h : svcs.find? (fun s => decide (s.1.name = b.svc)) = some (svc, cipAddr)) (l : List String)
+    (hl : endpointsForBackend isPlus all "" b.port svc pods = .ok l) : resolveOne isPlus false all svcs pods b = l := by
+  unfold resolveOne
+  rw [h]; simp [hl]
+
+example : resolveAll false false [⟨"s1", "d", [some 8080], [⟨["10.1.0.1"], some true⟩]⟩]
+    [(⟨"s0", "d", [⟨"", 80, .int 8080, "TCP"⟩], [], false, ""⟩, "10.96.0.1")] [] [⟨"s1", 80⟩] = [[]] := by
+  decide
+
 end Nic.Eps
